@@ -7,7 +7,9 @@ compilation with left recursion off raises; these are compared with tatsu.compil
 .optimized(), which re-runs the analysis on rewritten bodies).
 Oracles: (a) exactness - left calls, reachability and cycles recomputed by plain DFS from the generator's own
 grammar tree (inside the property's guard); (b) every grammar is parsed on a battery of short inputs under a
-recursion/timeout watchdog: RecursionError or timeout = "unbounded recursion".
+recursion/timeout watchdog: RecursionError or timeout = "unbounded recursion"; (c) the switches through every channel (S7); (d) `@nomemo`
+decorators in the text and every representation of the grammar that reaches the engine - generated Python parser,
+generated model source, JSON, pretty text, pickle (S8).
 """
 from __future__ import annotations
 
@@ -72,13 +74,16 @@ def render(n, names, top=False):
     raise ValueError(k)
 
 
-def grammar_text(rules, names, left_recursion=None, directives=()):
+def grammar_text(rules, names, left_recursion=None, directives=(), deco=None):
+    """deco: per rule, whether the rule carries the `@nomemo` decorator in the text"""
     out = []
     if left_recursion is not None:
         out.append(f'@@left_recursion :: {left_recursion}')
     for key, value in directives:
         out.append(f'@@{key} :: {value}')
     for i, body in enumerate(rules):
+        if deco is not None and deco[i]:
+            out.append('@nomemo')
         out.append(f'{names[i]} = {render(body, names, True)} ;')
     return '\n'.join(out) + '\n'
 
@@ -525,19 +530,108 @@ def work_settings(obs, m, rules, names, inputs, settings):
     obs['settings'] = st
 
 
+REP_CHANNELS = ('compiled-model', 'python-source', 'model-source', 'json', 'pretty', 'pickle')
+
+
+def work_reps(obs, m, text, inputs):
+    """S8: the same grammar text brought to the engine through every representation TatSu can produce of it:
+    the compiled model, the generated Python parser (to_python_sourcecode -> exec -> <Name>Parser()), the generated
+    model source (to_parsermodel_sourcecode -> exec -> GRAMMAR_MODEL), the JSON form (asjson -> Grammar.loads), the
+    pretty-printed text compiled again, a pickled copy.  Per channel: did it build, the (is_lrec, memoizable) of
+    every RuleInfo the engine was handed while parsing (ParserEngine.call watched), the flags of the Rule objects
+    where the channel yields a Grammar, and the canonical outcome per input.  Observations only."""
+    import json
+    import pickle
+    import tatsu
+    from tatsu.contexts.engine import ParserEngine
+    from tatsu.peg import Grammar
+    try:
+        from tatsu.api.api import to_parsermodel_sourcecode
+    except Exception:  # noqa: BLE001
+        to_parsermodel_sourcecode = getattr(tatsu, 'to_parsermodel_sourcecode', None)
+    inputs = settings_inputs(inputs)
+    st = {'inputs': inputs, 'channels': {}}
+
+    def from_python():
+        src = tatsu.to_python_sourcecode(text)
+        glob = {'__name__': 'c16_generated'}
+        exec(compile(src, '<c16-generated-parser>', 'exec'), glob)  # noqa: S102
+        return glob['GParser']()
+
+    def from_model_source():
+        src = to_parsermodel_sourcecode(text)
+        glob = {'__name__': 'c16_generated_model'}
+        exec(compile(src, '<c16-generated-model>', 'exec'), glob)  # noqa: S102
+        return glob['GRAMMAR_MODEL']
+
+    builders = {'compiled-model': lambda: m,
+                'python-source': from_python,
+                'model-source': from_model_source,
+                'json': lambda: Grammar.loads(json.dumps(m.asjson())),
+                'pretty': lambda: tatsu.compile(m.pretty()),
+                'pickle': lambda: pickle.loads(pickle.dumps(m))}  # noqa: S301
+    seen = {}
+    picks = {0, len(inputs) // 2, len(inputs) - 1}
+    o_call = ParserEngine.__dict__.get('call')
+    if o_call is None:
+        st['unwatched'] = True
+        obs['reps'] = st
+        return
+
+    def call(self, ri):
+        try:
+            seen.setdefault(str(ri.name), [bool(ri.is_lrec), bool(ri.memoizable)])
+        except Exception:  # noqa: BLE001
+            seen.setdefault('?', None)
+        return o_call(self, ri)
+
+    for ch in REP_CHANNELS:
+        row = {}
+        sys.setrecursionlimit(1200)
+        b = _guarded(builders[ch], 20)
+        row['build'] = 'built' if b[0] == 'ok' else b[0] if b[0] != 'error' else 'error:' + b[1]
+        if b[0] == 'ok':
+            target = b[1]
+            if hasattr(target, 'rules'):
+                try:
+                    row['flags'] = {str(r.name): [bool(r.is_lrec), bool(r.is_memo), bool(r.memoizable)] for r in target.rules}
+                except Exception as e:  # noqa: BLE001
+                    row['flags_error'] = type(e).__name__
+            sys.setrecursionlimit(800)
+            seen.clear()
+            ParserEngine.call = call
+            try:
+                # the two parsers proper on every input; the channels that yield a Grammar object (whose Rule flags
+                # are compared for every rule above) on three of them
+                full = ch in ('compiled-model', 'python-source')
+                row['out'] = [_outcome(target, inp, {}) if full or j in picks else None for j, inp in enumerate(inputs)]
+            finally:
+                ParserEngine.call = o_call
+            row['seen'] = dict(seen)
+        st['channels'][ch] = row
+    sys.setrecursionlimit(800)
+    obs['reps'] = st
+
+
 def work(job):
-    """job = (rules, names, inputs, nomemo or None, settings or None).  Returns a dict of plain observations."""
+    """job = (rules, names, inputs, nomemo or None, settings or None, reps or None).  Returns a dict of plain
+    observations.  reps = {'deco': [bool per rule]}: the rules carry `@nomemo` decorators in the text (S8)."""
     import tatsu
     from tatsu.exceptions import GrammarError, FailedParse
     from tatsu.peg.leftrec.pegen import mark_left_recursion
     sys.setrecursionlimit(1200)
-    rules, names, inputs, nomemo, settings = job
-    text = grammar_text(rules, names)
+    rules, names, inputs, nomemo, settings, reps = job
+    deco = reps['deco'] if reps is not None else None
+    by_name = dict(zip(names, deco)) if deco is not None else None
+    # S8: the grammar is named in the text, so that the code generators (which compile the text themselves) meet
+    # the compiled model of this very text in tatsu.compile()'s cache instead of parsing it again
+    named = (('grammar', 'G'),) if reps is not None else ()
+    text = grammar_text(rules, names, deco=deco, directives=named)
     obs = {'text': text}
     c = _guarded(lambda: tatsu.compile(text), 20)
     obs['compile'] = c[0] if c[0] != 'error' else 'error:' + c[1]
     # compile with left recursion off
-    off_text = grammar_text(rules, names, left_recursion=False)
+    off_text = grammar_text(rules, names, left_recursion=False, deco=deco, directives=named)
 
     def comp_off():
         try:
@@ -551,8 +645,10 @@ def work(job):
         return obs
     m = c[1]
     try:
-        obs['req'] = tr_rules(m.rules)
+        # S8: the model is told what the text says (the generator's decorator flags), not what the Rule objects say
+        obs['req'] = tr_rules(m.rules, None if by_name is None else [by_name.get(r.name, False) for r in m.rules])
         obs['flags'] = flags(m.rules)
+        obs['rule_names'] = [r.name for r in m.rules]
         if nomemo is not None:
             # no_memo cannot be set from grammar text at this commit (the @nomemo decorator is not read):
             # set the field and re-run the analysis the way Grammar._mark_left_recursion does
@@ -571,7 +667,9 @@ def work(job):
     obs['optimized'] = op[0] if op[0] != 'error' else 'error:' + op[1]
     if op[0] == 'ok':
         try:
-            obs['req_opt'] = tr_rules(op[1].rules)
+            obs['req_opt'] = tr_rules(op[1].rules,
+                                      None if by_name is None else [by_name.get(r.name, False) for r in op[1].rules])
+            obs['names_opt'] = [r.name for r in op[1].rules]
             obs['flags_opt'] = flags(op[1].rules)
             obs['ri_opt'] = riflags(op[1].rules)
             obs['leaders_opt'] = [r.name for r in op[1].rules if r.ruleinfo.is_lrec]
@@ -611,6 +709,8 @@ def work(job):
     obs['parse'] = outs
     if settings is not None and op[0] == 'ok' and 'untranslatable' not in obs:
         work_settings(obs, m, rules, names, inputs, settings)
+    if reps is not None and op[0] == 'ok' and 'untranslatable' not in obs:
+        work_reps(obs, m, text, inputs)
     return obs
 
 
@@ -919,9 +1019,9 @@ def make_jobs(chk: Check):
     inputs_t = battery(['t'], chk.quick)
     inputs_tu = battery(['t', 'u'], chk.quick)
 
-    def add(stream, rules, names=None, inputs=None, nomemo=None, settings=None):
+    def add(stream, rules, names=None, inputs=None, nomemo=None, settings=None, reps=None):
         n = len(rules)
-        jobs.append((stream, rules, names or list(NAMES[:n]), inputs or inputs_t, nomemo, settings))
+        jobs.append((stream, rules, names or list(NAMES[:n]), inputs or inputs_t, nomemo, settings, reps))
 
     # S1: one rule, choices of <= 2 sequences of <= 2 atoms: exhaustive
     b1 = bodies(1, 2, 2)
@@ -1001,6 +1101,38 @@ def make_jobs(chk: Check):
         st = random_settings(rng)
         chk.count('settings.directives[' + settings_sig(st['directives']) + ']')
         add('settings:channels', rules, names, inputs, settings=st)
+    # S8: `@nomemo` decorators in the grammar text (on leaders, on other members of a cycle, on rules outside),
+    # and the grammar brought to the engine through every representation (compiled model, generated Python parser,
+    # generated model source, JSON, pretty-printed text, pickle), over grammars with visible cycles (one leader,
+    # several leaders, nested components), hidden cycles and none
+    for _ in range(160 if chk.quick else 1200):
+        r = rng.random()
+        if r < 0.35:
+            rules, names, inputs = (digraph_grammar(3, rng.randrange(512), 'random', rng, nonedges=True),
+                                    random_names(rng, 3), inputs_t)
+        elif r < 0.5:
+            rules, names, inputs = [rng.choice(b22), rng.choice(b22)], random_names(rng, 2), inputs_t
+        elif r < 0.7:
+            n = rng.randint(2, 5)
+            rules, names, inputs = random_grammar(rng, n, ['t', 'u']), random_names(rng, n), inputs_tu
+        elif r < 0.9:
+            rules, _kinds = reentry_grammar(rng)
+            n = len(rules)
+            names = [LETTERS[i] if i < len(LETTERS) else f'r{i}' for i in range(n)]
+            if rng.random() < 0.5:
+                rng.shuffle(names)
+            inputs = inputs_g
+        else:
+            n = rng.randint(4, 6)
+            mask = 0
+            for b in range(n * n):
+                if rng.random() < 0.28:
+                    mask |= 1 << b
+            rules, names, inputs = digraph_grammar(n, mask, 'random', rng, nonedges=True), random_names(rng, n), inputs_t
+        p = rng.choice([0.0, 0.25, 0.5, 0.5, 1.0])
+        deco = [rng.random() < p for _ in rules]
+        chk.count('reps.decorated-rules.' + ('none' if not any(deco) else 'all' if all(deco) else 'some'))
+        add('representations:decorators', rules, names, inputs, reps={'deco': deco})
     return jobs
 
 
@@ -1084,6 +1216,85 @@ def check_settings(chk, settings, o, inputs, guard, replay):
     return 0
 
 
+def check_reps(chk, o, names, deco, spec_graph, replay):
+    """S8 oracles; returns the number of violations (at most one per grammar: the first by channel, rule, input)"""
+    st = o['reps']
+    if st.get('unwatched'):
+        chk.violation('reps:unwatched', 'ParserEngine.call is gone: the RuleInfo handed to the engine cannot be observed', replay)
+        return 1
+    by_name = dict(zip(names, deco))
+    cyc = dict(zip(names, on_cycle(spec_graph)))
+    want_seen = {nm: [ri[0], ri[1]] for nm, ri in zip(o.get('names_opt', []), o.get('ri_opt', []))}
+    want_flags = dict(zip(o.get('rule_names', []), o['flags']))
+    base = st['channels'].get('compiled-model', {}).get('out')
+
+    def fl(v):
+        return 'none' if v is None else f'lrec={"T" if v[0] else "F"},memo={"T" if v[-1] else "F"}'
+
+    def rsig(nm):
+        return f'rule[{fl(want_seen.get(nm))},nomemo={"T" if by_name.get(nm) else "F"},{"on" if cyc.get(nm) else "off"}-cycle]'
+
+    for ch in REP_CHANNELS:
+        row = st['channels'].get(ch)
+        chk.evaluations += 1
+        if row is None or row['build'] != 'built':
+            chk.count('reps.build-failed.' + ch)
+            chk.violation(f'reps:build:{ch}:{row and row["build"]}', f'the {ch} representation of the grammar could not be built',
+                          dict(replay, channel=ch, build=row and row['build']))
+            return 1
+        chk.count('reps.built.' + ch)
+        # static: the Rule objects of a channel that yields a Grammar carry the marks of the compiled model
+        if 'flags_error' in row:
+            chk.violation(f'reps:flags-unreadable:{ch}', 'rule flags of the representation cannot be read', dict(replay, channel=ch))
+            return 1
+        if 'flags' in row:
+            for nm in sorted(want_flags):
+                if row['flags'].get(nm) != want_flags[nm]:
+                    got = row['flags'].get(nm)
+                    chk.violation(f'reps:rule-flags:{ch}:{rsig(nm)}:got[{fl(got)}]',
+                                  'the Rule object of this representation does not carry the (is_lrec, is_memo, memoizable) '
+                                  'of the compiled model', dict(replay, channel=ch, rule=nm, got=got, want=want_flags[nm]))
+                    return 1
+        # dynamic: the RuleInfo handed to ParserEngine.call
+        for nm in sorted(row.get('seen', {})):
+            got = row['seen'][nm]
+            if nm not in want_seen:
+                chk.violation(f'reps:engine-rule-unknown:{ch}', 'the engine was handed a rule that the grammar does not have',
+                              dict(replay, channel=ch, rule=nm))
+                return 1
+            chk.count('reps.ruleinfo.' + rsig(nm))
+            if got != want_seen[nm]:
+                chk.violation(f'reps:engine-marks:{ch}:{rsig(nm)}:got[{fl(got)}]',
+                              'the RuleInfo handed to the engine for this rule does not carry the (is_lrec, memoizable) of the '
+                              'marks of the grammar (the ones tied to the Coq model)',
+                              dict(replay, channel=ch, rule=nm, got=got, want=want_seen[nm], decorated=by_name.get(nm)))
+                return 1
+        if base is None:
+            continue
+        for inp, got, b in zip(st['inputs'], row['out'], base):
+            if got is None:
+                continue
+            chk.evaluations += 1
+            kind = None
+            if got.startswith('error'):
+                kind = 'raised-' + got.split(':')[1]
+            elif b == 'unbounded' or b.startswith('error'):
+                continue        # the model's own run is the business of the runtime oracle above
+            elif got == 'unbounded':
+                kind = 'unbounded-recursion-where-the-model-terminates'
+            elif got != b:
+                kind = 'outcome-differs-from-the-model:' + b.split(':')[0] + '-vs-' + got.split(':')[0]
+            if kind:
+                lead = sorted(nm for nm, v in want_seen.items() if v[0])
+                dl = 'decorated-leader' if any(by_name.get(nm) for nm in lead) else 'leaders' if lead else 'no-leader'
+                chk.violation(f'reps:{kind}:{ch}:{dl}',
+                              'the same grammar and input: this representation does not parse like the compiled model',
+                              dict(replay, channel=ch, input=inp, got=got, model=b, leaders=lead,
+                                   decorated=[nm for nm in names if by_name.get(nm)]))
+                return 1
+    return 0
+
+
 def detect_variant():
     import tatsu
     g = "a = b 'x' | c 'y' | 'p' ;\nb = a 'x' | c 'z' | 'q' ;\nc = a 'w' | b 'v' | 'r' ;\n"
@@ -1113,7 +1324,11 @@ def main():
                 'up to length 3 (+ one of length 6) under a recursion/timeout watchdog. A sample of the grammars '
                 '(hidden / visible / no cycles) is also compiled with every combination of the @@left_recursion and '
                 '@@memoization directives and parsed with the switches set again per parse (keyword settings, '
-                'ParserConfig object, both), in agreement and in conflict with the directives. Non-trivial: the grammar has at '
+                'ParserConfig object, both), in agreement and in conflict with the directives. A further sample (visible cycles '
+                'with one or several leaders, hidden cycles, none) carries @nomemo decorators in the text on none / some / all '
+                'rules and is brought to the engine as compiled model, generated Python parser, generated model source, JSON, '
+                'pretty-printed text compiled again and pickle; each is parsed on 8 inputs of the battery with the RuleInfo '
+                'handed to ParserEngine.call watched. Non-trivial: the grammar has at '
                 'least one left call; distinct by grammar text.')
     chk.trusted += ['the translator tr() in c16.py from compiled grammar nodes to model expressions (class table tied to '
                     'the source by T1), the harness-side DFS oracle, Python re for Pattern nullability',
@@ -1142,7 +1357,7 @@ def main():
     jobs = make_jobs(chk)
     nproc = max(2, min(10, (os.cpu_count() or 4) - 4))
     with ProcessPoolExecutor(max_workers=nproc) as ex:
-        results = list(ex.map(work, [(j[1], j[2], j[3], j[4], j[5]) for j in jobs], chunksize=8))
+        results = list(ex.map(work, [j[1:] for j in jobs], chunksize=8))
 
     # ---- model requests in one batch
     reqs = []
@@ -1160,9 +1375,11 @@ def main():
     bad_corr = 0
     bad_oracle = 0
     bad_settings = 0
+    bad_reps = 0
     untranslatable = 0
     for k, (job, o) in enumerate(zip(jobs, results)):
-        stream, rules, names, inputs, nomemo, settings = job
+        stream, rules, names, inputs, nomemo, settings, reps = job
+        deco = reps['deco'] if reps is not None else [False] * len(rules)
         n = len(rules)
         nul, _ = true_nullable(rules)
         spec_graph = [sorted(spec_left_calls(b, lambda i: False)) for b in rules]
@@ -1264,7 +1481,7 @@ def main():
                 chk.violation('oracle:detection-exact', 'GrammarError with left recursion off is not "some rule reaches itself"',
                               dict(replay, impl=o['off'], oracle_cyclic=any(cyc)))
             for i in range(n):
-                if not cyc[i] and (code[i][0] or not code[i][1]):
+                if not cyc[i] and (code[i][0] or code[i][1] == deco[i]):
                     bad_oracle += 1
                     chk.violation('oracle:off-cycle-touched', 'a rule on no left cycle is marked left recursive or lost its memo',
                                   dict(replay, rule=names[i], flags=code[i]))
@@ -1317,11 +1534,17 @@ def main():
             chk.violation('runtime:' + '+'.join(kinds), 'parse raised something other than FailedParse', dict(replay, outcomes=outs))
         if settings is not None and 'settings' in o:
             bad_settings += check_settings(chk, settings, o, inputs, guard, replay)
+        if reps is not None and 'reps' in o:
+            bad_reps += check_reps(chk, o, names, deco, spec_graph, replay)
     chk.obligation('R1:(is_lrec, is_memo), optimized copy, GrammarError-when-off vs LeftRec.v', 'correspondence', bad_corr == 0)
     chk.obligation('O2:the left-recursion / memoization switches through every channel (directives, keyword settings, '
                    'configuration object): GrammarError iff leaders and the switch is off for the model; marks do not '
                    'depend on the switches; a parse depends on the effective switches only; off = the leaders fail; '
                    'on = no unbounded recursion', 'oracle', bad_settings == 0)
+    chk.obligation('O3:@nomemo decorators in the text are the no_memo flags of the model; every representation of a grammar '
+                   '(compiled model, generated Python parser, generated model source, JSON, pretty text, pickle) hands the '
+                   'engine the same (is_lrec, memoizable) per rule - the marks tied to LeftRec.v by R1 - and parses every '
+                   'input to the same outcome, none recursing without bound where the model does not', 'oracle', bad_reps == 0)
     chk.obligation('O1:left calls / detection / off-cycle rules vs harness DFS (inside the guard)', 'oracle', bad_oracle == 0)
     chk.obligation('T3:every node class met was translatable', 'translator', untranslatable == 0)
     chk.extra['pegen_hashes'] = got_hashes
